@@ -110,6 +110,39 @@ func forwarderHistory(g *sim.Genesis) sim.History {
 	}}
 }
 
+// richMenu: amounts at the limits of the power arithmetic (signed 64-bit power, the consensus engine's 2^60-1 total), by a
+// sender that can afford them, and amounts whose sum with the fee wraps around 2^256.
+func richMenu() []sim.TxSpec {
+	gasR := func(s *sim.TxSpec) { s.GasExpr = "1R" }
+	return []sim.TxSpec{
+		stk("R", "R", "2^40R"),
+		stk("R", "R", "2^59R"),
+		stk("R", "R", "2^60-1R"),
+		stk("R", "R", "2^60R"),
+		stk("R", "R", "2^62R"),
+		stk("R", "R", "2^63-1R"),
+		stk("R", "R", "2^63R"),
+		stk("R", "R", "2^64-1R"),
+		stk("R", "R", "2^64R"),
+		stk("R", "R", "2^64+5R"),
+		stk("R", "R", "2^128+3R"),
+		stk("R", "V1", "2^60R"),
+		stk("R", "V1", "2^64+5R"),
+		unstk("R", "R", "R", 0),
+		unstk("R", "R", "R", 1),
+		tr("R", "U0", "2^249"),
+		tr("R", "U0", "bal-fee"),
+		tr("R", "R", "2^249"),
+		wdr("R", "1"),
+		with(stk("U0", "V1", "maxR"), gasR, "fee 1R: fee+amount wraps"),
+		with(stk("U0", "U0", "maxR"), gasR, "fee 1R: fee+amount wraps"),
+		with(tr("U0", "U1", "2^256-1"), gasR, "fee 1R: fee+amount wraps"),
+		with(call("U0", "contract:0", "", "2^256-1"), func(s *sim.TxSpec) { s.Gas = 400000000000000000 }, "fee+amount wraps"),
+		with(deploy("U0", counterInit, "2^256-1"), func(s *sim.TxSpec) { s.Gas = 400000000000000000 }, "fee+amount wraps"),
+		call("R", "contract:0", "", "2^249"),
+	}
+}
+
 func conservation(mc *modelCheck, mr *modelRun, h sim.History, res *engine.Result) []refmodel.Finding {
 	var out []refmodel.Finding
 	prev := mr.Model.Genesis
@@ -152,6 +185,8 @@ func init() {
 				Core: coreAppend(blocksSet(2, 3), 12, 1)},
 		)
 		fams = append(fams, family{Name: "value/evm-forwarder(sum only)", Base: func() sim.History { return forwarderHistory(genesis3()) }, Menu: c02Menu()[:12], WithEnv: true, NAppend: 1, MaxD: 1, MaxDTh: 2, SumOnly: true})
+		fams = append(fams, family{Name: "value/rich-sender-power-limits", Base: func() sim.History { return valueHistory(genesis3R()) }, Menu: richMenu(), WithEnv: true, NAppend: 2, MaxD: 2, MaxDTh: 3,
+			Core: coreAppend(blocksSet(2, 3, 4), 25, 1)})
 		return &modelCheck{id: "C02", owners: map[string]bool{"C02": true}, balWhy: []string{"*"}, families: fams, extra: conservation, evmSum: true,
 			meta: modelMeta("deviation-bounded exhaustive history exploration with reference model + conservation invariant over the implementation's full state",
 				"C02 families: a value history (user stakes, two contracts, 5 free blocks) with up to 3 inserted transactions per block from a 28-template value menu (boundary amounts 1 / balance-fee / balance-fee+1 / 2^255-1 / 2^255 / 2^256-1, self-transfer, boundary-balance sender, staking 1R / 1R+1 / 0, unstaking own / foreign / BOTH genesis stakes, full unstake then re-stake twice in one block, withdrawals 0 / 1 / exact / excessive / repeated, deployment and calls carrying value, value into a reverting contract, plain transfers to contracts) plus evidence, missed signatures (jailing) and proposer-less blocks; D<=2 over the core sub-menu (thorough: 3); plus a family that pushes value through a forwarding contract into a receiver that first reverts (nested revert, then value to the same address), judged by the model-independent conservation sum only; plus every gadget program of C17's alphabet up to length 2 (value-forwarding calls, nested reverts, CREATE, SELFDESTRUCT) in C17's history families, judged by 'total value of the node == total value of native model + reference EVM world' at every height. "+
